@@ -828,7 +828,7 @@ class Flow:
         elif isinstance(t, ast.Subscript):
             base = t.value
             bname = base.id if isinstance(base, ast.Name) else ast.unparse(base)
-            self.fact("augstore", bname, self.ev(t.slice), op, v, s)
+            self.fact("augstore", bname, self.ev(t.slice), op, v, s, base=self.ev(base) if not isinstance(base, ast.Name) else None)
         elif isinstance(t, ast.Attribute):
             self.fact("attrstore", t.attr, None, op, v, s, obj=self.ev(t.value))
 
@@ -1309,6 +1309,126 @@ def as_map(v):
     return None
 
 
+def record_fields(v, class_of=None):
+    """The projections of a freshly built record value, whatever the representation:  {path: value IR}  with path
+    ("sub", k) for `r[k]`, ("attr", name) for `r.name`, ("len",) for `len(r)`.
+
+      [a, b] / (a, b)                     {("sub", 0): a, ("sub", 1): b, ("len",): 2}
+      {"k": a}                            {("sub", "k"): a, ("len",): 1}
+      C(a, y=b)  with C a dataclass / typing.NamedTuple class, a `namedtuple("C", ..)`, or a class whose __init__ stores its
+                 parameters / constants into self: {("attr", field): value, ...} (defaults filled in; for named tuples also ("sub", i))
+
+    `class_of(name)` -> the ClassDef, or the `namedtuple(..)` Call bound to that name at module level, or None.  None when the
+    value is not such a display / constructor call."""
+    v = simp(v)
+    if v[0] in ("list", "tuple"):
+        if any(e[0] == "star" for e in v[1]):
+            return None
+        d = {("sub", i): e for i, e in enumerate(v[1])}
+        d[("len",)] = ("const", len(v[1]))
+        return d
+    if v[0] == "dict":
+        if not all(k[0] == "const" for k, _ in v[1]):
+            return None
+        d = {("sub", k[1]): x for k, x in v[1]}
+        d[("len",)] = ("const", len(v[1]))
+        return d
+    if v[0] != "call" or v[1][0] != "global" or class_of is None or any(a[0] == "star" for a in v[2]) or any(k == "**" for k, _ in v[3]):
+        return None
+    cd = class_of(v[1][1])
+    fields, defaults, tup = None, {}, False
+    if isinstance(cd, ast.Call) and ast.unparse(cd.func).split(".")[-1] == "namedtuple" and len(cd.args) >= 2:
+        spec = cd.args[1]
+        if isinstance(spec, ast.Constant) and isinstance(spec.value, str):
+            fields = spec.value.replace(",", " ").split()
+        elif isinstance(spec, (ast.List, ast.Tuple)) and all(isinstance(e, ast.Constant) and isinstance(e.value, str) for e in spec.elts):
+            fields = [e.value for e in spec.elts]
+        dn = next((k.value for k in cd.keywords if k.arg == "defaults"), None)
+        if fields is not None and isinstance(dn, (ast.List, ast.Tuple)) and all(isinstance(e, ast.Constant) for e in dn.elts):
+            defaults = {f: ("const", e.value) for f, e in zip(fields[len(fields) - len(dn.elts):], dn.elts)}
+        elif dn is not None:
+            fields = None
+        tup = True
+    elif isinstance(cd, ast.ClassDef):
+        is_dc = any("dataclass" in ast.unparse(d) for d in cd.decorator_list)
+        is_nt = any(ast.unparse(b).split(".")[-1] == "NamedTuple" for b in cd.bases)
+        init = next((m for m in cd.body if isinstance(m, ast.FunctionDef) and m.name == "__init__"), None)
+        if (is_dc or is_nt) and init is None and (is_nt or not cd.bases):
+            fields = []
+            for st in cd.body:
+                if isinstance(st, ast.AnnAssign) and isinstance(st.target, ast.Name) and "ClassVar" not in ast.unparse(st.annotation):
+                    fields.append(st.target.id)
+                    if st.value is not None:
+                        if not isinstance(st.value, ast.Constant):
+                            return None
+                        defaults[st.target.id] = ("const", st.value.value)
+            tup = is_nt
+        elif init is not None and not cd.bases and not init.args.vararg and not init.args.kwarg and not init.args.kwonlyargs:
+            # a plain class: the fields are what __init__ stores into self, unconditionally, from its parameters / constants
+            params = [a.arg for a in init.args.args]
+            try:
+                fl = Flow(init, "")
+            except Exception:
+                return None
+            stores = [f for f in fl.facts if f.kind == "attrstore"]
+            if not params or any(f.guards or f.loops or f.op != "=" or f.extra.get("obj") != ("param", params[0]) for f in stores) \
+                    or any(f.kind in ("return", "raise", "call", "store", "augstore") and not (f.kind == "return" and f.value in (None, ("const", None))) for f in fl.facts):
+                return None
+            pdef = dict(zip(params[len(params) - len(init.args.defaults):], init.args.defaults))
+            given = dict(zip(params[1:], v[2]))
+            for k, x in v[3]:
+                if k in given or k not in params[1:]:
+                    return None
+                given[k] = x
+            for p_ in params[1:]:
+                if p_ not in given:
+                    if p_ not in pdef or not isinstance(pdef[p_], ast.Constant):
+                        return None
+                    given[p_] = ("const", pdef[p_].value)
+            if len(v[2]) > len(params) - 1:
+                return None
+            m = {("param", p_): x for p_, x in given.items()}
+            d = {}
+            for f in stores:
+                d[("attr", f.target)] = simp(subst(simp(f.value), m))
+            return d
+    if fields is None:
+        return None
+    if len(v[2]) > len(fields):
+        return None
+    given = dict(zip(fields, v[2]))
+    for k, x in v[3]:
+        if k in given or k not in fields:
+            return None
+        given[k] = x
+    d = {}
+    for i, f in enumerate(fields):
+        if f not in given:
+            if f not in defaults:
+                return None
+            given[f] = defaults[f]
+        d[("attr", f)] = given[f]
+        if tup:
+            d[("sub", i)] = given[f]
+    if tup:
+        d[("len",)] = ("const", len(fields))
+    return d
+
+
+def projection(x, e):
+    """the path (as used by record_fields) that the expression `x` reads off the record `e`: `e[k]` -> ("sub", k), `e.name` ->
+    ("attr", name), `len(e)` -> ("len",), `e` itself -> (); None when x is anything else"""
+    if x == e:
+        return ()
+    if x[0] == "sub" and x[1] == e and x[2][0] == "const":
+        return ("sub", x[2][1])
+    if x[0] == "attr" and x[1] == e:
+        return ("attr", x[2])
+    if x[0] == "call" and x[1] == ("global", "len") and x[2] == (e,) and not x[3]:
+        return ("len",)
+    return None
+
+
 def as_dict_map(v):
     """View a dict-valued IR as `{kbody: vbody for K, X in T.items() if filters}`  ->  (K, X, kbody, vbody, T, filters) or None, with
     K / X bound variables standing for a key of T and its value.  Understood: T itself, copies (`T.copy()`, `dict(T)`), a dict
@@ -1383,6 +1503,9 @@ def norm_bv(m):
     return (simp(subst(body, {bv: z})), base, tuple(simp(subst(c, {bv: z})) for c in ifs))
 
 
+_RE_NARGS = {"sub": (2, 3), "subn": (2, 3), "split": (1, 2), "findall": (1, 1), "finditer": (1, 1), "search": (1, 1), "match": (1, 1), "fullmatch": (1, 1)}
+
+
 def simp(v):
     """Bottom-up simplification with the two rewrite rules of DESIGN E2."""
     if not isinstance(v, tuple) or not v:
@@ -1447,6 +1570,11 @@ def simp(v):
     # list(<generator expression>) is the list comprehension (as Flow.e_Call reads it when the argument is written as one)
     if k == "call" and v[1] in (("global", "list"), ("global", "tuple")) and len(v[2]) == 1 and not v[3] and v[2][0][0] == "comp" and v[2][0][1] in ("gen", "list"):
         return ("comp", "list") + tuple(v[2][0][2:])
+    # re.compile(P).finditer(s) is re.finditer(P, s): a scan through a compiled pattern (held in a local, say) and through the
+    # module-level function are the same scan (only with the arguments both spellings take: no pos / endpos)
+    if k == "meth" and v[1][0] == "call" and v[1][1] == ("attr", ("global", "re"), "compile") and len(v[1][2]) == 1 and not v[1][3] and not v[4] \
+            and v[2] in _RE_NARGS and _RE_NARGS[v[2]][0] <= len(v[3]) <= _RE_NARGS[v[2]][1]:
+        return ("meth", ("global", "re"), v[2], (v[1][2][0],) + tuple(v[3]), ())
     # functools.reduce(lambda acc, x: body, <display of known elements>, init) is the left fold written out:
     # body[acc:=body[acc:=init, x:=e1], x:=e2] ...   (e.g. a chain of str.replace driven by a table of pairs)
     if k == "call" and v[1] in (("global", "reduce"), ("attr", ("global", "functools"), "reduce")) and len(v[2]) == 3 and not v[3] \
